@@ -221,6 +221,9 @@ namespace hs
                     int w = int(r.below(4));
                     if (!(alloc_mask & (1u << w)))
                         continue;
+                    if (r.chance(1, 8))
+                        p.add("xx", {w, (long long)r.below(5000)}); // a request the upstream refuses
+                    else
                     p.add("xa", {w, (long long)r.size_biased(0, 2999)});
                 }
                 else
@@ -524,6 +527,12 @@ namespace hs
                     live += 20;
                     break;
                 }
+                if (is_ll && r.chance(1, 15))
+                {
+                    p.add("an", {obj(), fam, 0, (long long)r.pick({0, 0, 1, 2, 3, 4}), 1}, fault()); // size 0
+                    ++live;
+                    break;
+                }
                 if ((is_pool || is_coll) && r.chance(1, 10))
                     p.add("an", {obj(), fam, (long long)r.size_biased(0, 4000), (long long)r.pick({0, 0, 1, 2, 3}), 1},
                           fault()); // exactly at the limit
@@ -639,6 +648,8 @@ namespace hs
             p.add("bad", {0, 5, (long long)r.below(1000)});
             p.add("bad", {1, 4, (long long)r.below(1000)});
             p.add("bad", {1, 5, (long long)r.below(1000)});
+            p.add("bad", {1, 6, (long long)r.below(100000)});
+            p.add("bad", {1, 7, (long long)r.below(100000)});
             for (int k = 0; k < 4; ++k)
                 p.add("badblk", {k});
             return p;
